@@ -52,7 +52,7 @@ def write_models(d, ex, waived, nthreads):
     defs = c15_extract.tla_defs(ex)
     wv = "{" + ", ".join('"%s"' % w for w in sorted(waived)) + "}"
     th = "{" + ", ".join('"%s"' % t for t in THREADS[:nthreads]) + "}"
-    consts = ("CONSTANTS\n  Thread = %s\n  Ops <- d_Ops\n  OpSegs <- d_OpSegs\n  SiteM <- d_SiteM\n"
+    consts = ("CONSTANTS\n  Thread = %s\n  Ops <- d_Ops\n  OpSegs <- d_OpSegs\n  SiteM <- d_SiteM\n  CloseClears <- d_CloseClears\n"
               "  Waived <- d_Waived\n")
     with open(os.path.join(d, "MC_ClfLock.tla"), "w") as f:
         f.write("---- MODULE MC_ClfLock ----\nEXTENDS ClfLock\n%sd_Waived == %s\n====\n" % (defs, wv))
@@ -231,9 +231,9 @@ class Run(object):
         return dev
 
     # -- event recording (runs in the logical thread that holds the baton) ------------------------
-    def emit(self, a, t, op="", site="", m="", held=False, nodev=False):
+    def emit(self, a, t, op="", site="", m="", held=False, nodev=False, ok=True):
         owner = self.lock.owner.name if self.lock.owner is not None else "free"
-        self.ev.append(dict(a=a, t=t, op=op, site=site, m=m, held=bool(held), nodev=bool(nodev), sites=[],
+        self.ev.append(dict(a=a, t=t, op=op, site=site, m=m, held=bool(held), nodev=bool(nodev), sites=[], ok=bool(ok),
                             devnone=self.clf.device is None,
                             lock=owner, indrv=sorted(self.indrv), dev=self.devstate))
 
@@ -271,7 +271,9 @@ class Run(object):
             self.sch.point()                      # preemption while the driver is talking to the device
         else:
             self.indrv.remove(me.name)
-            self.emit("Exit", me.name, m=method)
+            # ok: the driver method returns normally (called from the driver's `finally`: an exception is in flight
+            # exactly when it raised)
+            self.emit("Exit", me.name, m=method, ok=sys.exc_info()[0] is None)
             self.sch.point()
 
     def device_connect(self, path):
@@ -421,6 +423,21 @@ def p_close(run, name):
     run.op(name, "close", lambda: run.clf.close())
 
 
+def p_close_fail(run, name):
+    """close() on a driver whose close() raises the IOError that ContactlessFrontend.close() swallows"""
+    dev = run.clf.device
+    if dev is not None:
+        dev.fail_close = True
+    run.op(name, "close", lambda: run.clf.close())
+
+
+def p_use_after(run, name):
+    """what an application thread does next, whatever another thread did to the frontend"""
+    run.op(name, "max_send_data_size", lambda: run.clf.max_send_data_size)
+    run.op(name, "exchange", lambda: run.clf.exchange(b"\x30\x00", 0.1))
+    run.op(name, "close", lambda: run.clf.close())
+
+
 def p_reopen(run, name):
     run.op(name, "open", lambda: run.clf.open("sim"))
     run.op(name, "sense", lambda: run.clf.sense(nfc.clf.RemoteTarget("106A")))
@@ -442,6 +459,8 @@ PROGRAMS = {
     "xchg": (p_xchg, ["tag"]),
     "xchg_t": (p_xchg_t, ["reader"]),
     "close": (p_close, []),
+    "close_fail": (p_close_fail, []),
+    "use_after": (p_use_after, []),
     "reopen": (p_reopen, ["tag"]),
     "with": (p_with, []),
 }
@@ -508,6 +527,8 @@ def classify(tr, line, act, why):
     site = ev.get("site") or ev.get("op") or "-"
     if kind == "inv":
         invs = list(why[1])
+        if len(why) > 2 and why[2] and "HolderOnly" not in invs and "Mutex" not in invs:
+            site = why[2]                         # NotAfterClose: the close() site that left a stale reference
         if "HolderOnly" in invs:
             return "unlocked-driver-call:" + site, invs
         if "Mutex" in invs:
@@ -566,7 +587,7 @@ def _run(ck, d, tier, seed, quick):
     # 1. exhaustive: threads x operations x segments on the extracted table
     found, waived_mc, rfinal = model_check(ck, d, ex, 2 if quick else 3, 300 if quick else 900)
     # witnesses on the final (waived) model: the interesting situations are reachable
-    need = ["W_InDriverLocked", "W_Waiting", "W_Enodev", "W_Closed", "W_Reopen", "W_TwoOps"]
+    need = ["W_InDriverLocked", "W_Waiting", "W_Enodev", "W_Closed", "W_Reopen", "W_TwoOps", "W_CloseFailed"]
     write_models(d, ex, waived_mc, 2)
     hit, _ = tlc.witnesses("MC_ClfLock.tla", "MC_ClfLock_reach.cfg", PID + "/reach", need, cwd=d, timeout=200)
     if set(need) - hit:
@@ -620,8 +641,9 @@ def _run(ck, d, tier, seed, quick):
             if score > rep["score"]:
                 rep["score"] = score
                 rep["best"] = (tr, line, act, why, ev, sorted(waived))
-            if invs and ev.get("site") in all_sites:
-                new_waive.add(ev["site"])
+            blamed = key.split(":", 1)[1] if invs else None
+            if invs and blamed in all_sites:
+                new_waive.add(blamed)
                 again.append(tr)
         if not again:
             break
